@@ -99,8 +99,9 @@ CHECKS["C01"] = dict(
     "dispatch_one_batch/_dispatch/BatchCompletionCallBack/_start/_retrieve/__call__; the model's event log is compared for equality "
     "with the real Parallel driven deterministically through a controllable backend; F11 witness proved. M1L (all interleavings of "
     "any number of callback threads with the caller at lock-boundary granularity): mutex, dispatch_conservation, exactly_once, counters, "
-    "return_correct, no_premature_exit, no_deadlock, callback_progress, no_lost_wakeup, quiet_exit.",
-    note="M1 granularity: completion callbacks are atomic and delivered at hook points of the caller (configure, compute_batch_size, sleep, consumer pauses) - exactly the schedules harness/ctl.py executes on the real Parallel on one thread (event-log equality). Interleavings at lock-boundary / backend-call / unlocked-shared-access granularity with any number of concurrent callback threads are covered by PROOF on the second model M1L (lean/JoblibModel/ParallelLock.lean, theorems M1L.*; scope: one call on a fresh object, ordered modes, no timeout) and tied to the code by step-log equality of forced real-thread schedules (instrumented lock, controllable backend, descriptor-instrumented shared attributes; no line numbers). What remains exploration judged by oracles only is finer than a single attribute access (bytecode level: instr_sweep), mid-callback observations of the wait predicate, close during a callback's pull, native threading/multiprocessing runs, and at M1L granularity: timeouts, generator_unordered, call sequences; termination under a fair drain schedule is proved only in part (no_deadlock, callback_progress, no_lost_wakeup, quiet_exit). Modelled not verified: backend contract (each batch executed at most once, callback at most once), RLock, islice, Queue/deque, pickling to workers.",
+    "return_correct, no_premature_exit, no_deadlock, callback_progress, no_lost_wakeup, quiet_exit, and quiescent_termination (from every "
+    "reachable state the drain schedule finishes the call within an explicit bound).",
+    note="M1 granularity: completion callbacks are atomic and delivered at hook points of the caller (configure, compute_batch_size, sleep, consumer pauses) - exactly the schedules harness/ctl.py executes on the real Parallel on one thread (event-log equality). Interleavings at lock-boundary / backend-call / unlocked-shared-access granularity with any number of concurrent callback threads are covered by PROOF on the second model M1L (lean/JoblibModel/ParallelLock.lean, theorems M1L.*; scope: one call on a fresh object, ordered modes, no timeout) and tied to the code by step-log equality of forced real-thread schedules (instrumented lock, controllable backend, descriptor-instrumented shared attributes; no line numbers). What remains exploration judged by oracles only is finer than a single attribute access (bytecode level: instr_sweep), mid-callback observations of the wait predicate, close during a callback's pull, native threading/multiprocessing runs, and at M1L granularity: timeouts, generator_unordered, call sequences; termination is proved for the drain schedule (completions, then callbacks, then the caller; quiescent_termination with an explicit bound), not for arbitrary fair schedules. Modelled not verified: backend contract (each batch executed at most once, callback at most once), RLock, islice, Queue/deque, pickling to workers.",
     technique="Lean 4 proof (invariant over the dispatch/completion/retrieval transition system) + event-log correspondence under a deterministic scheduler",
     ref="6/C01, 13.2",
 )
@@ -110,8 +111,9 @@ CHECKS["C04"] = dict(
     "for all schedules and call sequences; same correspondence as C01 with failing tasks, failing iterator steps, fake-clock "
     "timeouts and fail/succeed/fail call sequences. M1L (all interleavings at lock-boundary granularity): error_surfaces, "
     "error_surfaces_partial, raise_is_legit, outcome_done, and error_surfaces_counterexample = F49 (the pre-fix _wait_retrieval lets a "
-    "late iterator error be swallowed; found by the M1L correspondence, fixed in /repo).",
-    note="M1 granularity: completion callbacks are atomic and delivered at hook points of the caller (configure, compute_batch_size, sleep, consumer pauses) - exactly the schedules harness/ctl.py executes on the real Parallel on one thread (event-log equality). Interleavings at lock-boundary / backend-call / unlocked-shared-access granularity with any number of concurrent callback threads are covered by PROOF on the second model M1L (lean/JoblibModel/ParallelLock.lean, theorems M1L.*; scope: one call on a fresh object, ordered modes, no timeout) and tied to the code by step-log equality of forced real-thread schedules (instrumented lock, controllable backend, descriptor-instrumented shared attributes; no line numbers). What remains exploration judged by oracles only is finer than a single attribute access (bytecode level: instr_sweep), mid-callback observations of the wait predicate, close during a callback's pull, native threading/multiprocessing runs, and at M1L granularity: timeouts, generator_unordered, call sequences; termination under a fair drain schedule is proved only in part (no_deadlock, callback_progress, no_lost_wakeup, quiet_exit). Modelled not verified: backend contract (each batch executed at most once, callback at most once), RLock, islice, Queue/deque, pickling to workers." + " Worker-side traceback capture is covered by native runs only.",
+    "late iterator error be swallowed; found by the M1L correspondence, fixed in /repo); 'the call always terminates': "
+    "M1L.quiescent_termination (drain schedule, explicit bound).",
+    note="M1 granularity: completion callbacks are atomic and delivered at hook points of the caller (configure, compute_batch_size, sleep, consumer pauses) - exactly the schedules harness/ctl.py executes on the real Parallel on one thread (event-log equality). Interleavings at lock-boundary / backend-call / unlocked-shared-access granularity with any number of concurrent callback threads are covered by PROOF on the second model M1L (lean/JoblibModel/ParallelLock.lean, theorems M1L.*; scope: one call on a fresh object, ordered modes, no timeout) and tied to the code by step-log equality of forced real-thread schedules (instrumented lock, controllable backend, descriptor-instrumented shared attributes; no line numbers). What remains exploration judged by oracles only is finer than a single attribute access (bytecode level: instr_sweep), mid-callback observations of the wait predicate, close during a callback's pull, native threading/multiprocessing runs, and at M1L granularity: timeouts, generator_unordered, call sequences; termination is proved for the drain schedule (completions, then callbacks, then the caller; quiescent_termination with an explicit bound), not for arbitrary fair schedules. Modelled not verified: backend contract (each batch executed at most once, callback at most once), RLock, islice, Queue/deque, pickling to workers." + " Worker-side traceback capture is covered by native runs only.",
     technique="Lean 4 proof (invariants + clean-state re-establishment) + event-log correspondence under a deterministic scheduler",
     ref="6/C04, 13.2",
 )
@@ -122,7 +124,7 @@ CHECKS["C09"] = dict(
     "probe with an input iterator that detects a second thread entering it. M1L (all interleavings at lock-boundary granularity): "
     "mutex, lock_owner_iff, acquire_needs_free_lock, pulls_only_by_lock_owner (never from two threads at once), "
     "no_pull_after_abort_observed.",
-    note="M1 granularity: completion callbacks are atomic and delivered at hook points of the caller (configure, compute_batch_size, sleep, consumer pauses) - exactly the schedules harness/ctl.py executes on the real Parallel on one thread (event-log equality). Interleavings at lock-boundary / backend-call / unlocked-shared-access granularity with any number of concurrent callback threads are covered by PROOF on the second model M1L (lean/JoblibModel/ParallelLock.lean, theorems M1L.*; scope: one call on a fresh object, ordered modes, no timeout) and tied to the code by step-log equality of forced real-thread schedules (instrumented lock, controllable backend, descriptor-instrumented shared attributes; no line numbers). What remains exploration judged by oracles only is finer than a single attribute access (bytecode level: instr_sweep), mid-callback observations of the wait predicate, close during a callback's pull, native threading/multiprocessing runs, and at M1L granularity: timeouts, generator_unordered, call sequences; termination under a fair drain schedule is proved only in part (no_deadlock, callback_progress, no_lost_wakeup, quiet_exit). Modelled not verified: backend contract (each batch executed at most once, callback at most once), RLock, islice, Queue/deque, pickling to workers." + " The unrestricted look-ahead bound is false of the code (F18, known finding); F29 known.",
+    note="M1 granularity: completion callbacks are atomic and delivered at hook points of the caller (configure, compute_batch_size, sleep, consumer pauses) - exactly the schedules harness/ctl.py executes on the real Parallel on one thread (event-log equality). Interleavings at lock-boundary / backend-call / unlocked-shared-access granularity with any number of concurrent callback threads are covered by PROOF on the second model M1L (lean/JoblibModel/ParallelLock.lean, theorems M1L.*; scope: one call on a fresh object, ordered modes, no timeout) and tied to the code by step-log equality of forced real-thread schedules (instrumented lock, controllable backend, descriptor-instrumented shared attributes; no line numbers). What remains exploration judged by oracles only is finer than a single attribute access (bytecode level: instr_sweep), mid-callback observations of the wait predicate, close during a callback's pull, native threading/multiprocessing runs, and at M1L granularity: timeouts, generator_unordered, call sequences; termination is proved for the drain schedule (completions, then callbacks, then the caller; quiescent_termination with an explicit bound), not for arbitrary fair schedules. Modelled not verified: backend contract (each batch executed at most once, callback at most once), RLock, islice, Queue/deque, pickling to workers." + " The unrestricted look-ahead bound is false of the code (F18, known finding); F29 known.",
     technique="Lean 4 proof (size invariants of the transition system) + event-log correspondence + re-entrancy probe",
     ref="6/C09, 13.2",
 )
